@@ -221,7 +221,7 @@ func (h hdrVariant) render(closeIt bool) string {
 var hdrNames = []string{"stream:stream", "stream:other", "open", "foo", "error"}
 var hdrPrefix = []string{streamNS, "urn:wrong"}
 var hdrXMLNS = []string{stanza.NSClient, stanza.NSServer, "urn:other", "-"}
-var hdrVersions = []string{"1.0", "0.9", "2.0", "-", "junk", "1.1", ""}
+var hdrVersions = []string{"1.0", "0.9", "2.0", "-", "junk", "1.1", "", "257.0", "1.256", "513.512", "-255.0", "+1.0", "1", "1.0.0", " 1.0", "1.0 "}
 
 func acceptBody(c *nd.Ctx) nd.Result {
 	recv := c.Choose(2, "role") == 1
@@ -753,7 +753,7 @@ func init() {
 		ID:    "C12",
 		Level: "model_checking",
 		Rule: "emit: 5 own addresses (resourceparts with quotes/&/<>/spaces, non-ASCII) x 2 domains x 3 language strings x c2s/s2s x TCP/WebSocket: the header an initiating library instance sends is checked for well-formedness and handed to a receiving instance, whose answer is handed to another initiating instance; both must report the same to/from/id/version/lang/xmlns. " +
-			"accept: every incoming start element from {stream:stream, stream:other, open, foo, stream:error} x stream prefix namespace x 4 xmlns x 7 versions x id x 3 address shapes, on both roles and both framings. restart: every sequence of up to 3 headers with same/different/absent from and to across restarts, both roles. bind: 4 own addresses x 14 server replies (initiator), 4 callbacks x 3 requested resources x 1-2 sessions sharing the feature value (receiver). Non-trivial = every distinct configuration.",
+			"accept: every incoming start element from {stream:stream, stream:other, open, foo, stream:error} x stream prefix namespace x 4 xmlns x 16 versions (incl. components that overflow a byte, signs, extra components, blanks) x id x 3 address shapes, on both roles and both framings. restart: every sequence of up to 3 headers with same/different/absent from and to across restarts, both roles. bind: 4 own addresses x 14 server replies (initiator), 4 callbacks x 3 requested resources x 1-2 sessions sharing the feature value (receiver). Non-trivial = every distinct configuration.",
 		Assumptions: []string{"'accepted only if' is checked in that direction; a fully valid header with matching addresses must be accepted", "WebSocket framing is driven through websocket.Negotiator over an in-memory stream (no WebSocket handshake)"},
 		Parts: func(tier string) []drv.Part {
 			b := 2 * time.Minute
